@@ -26,7 +26,7 @@ for i in ids:
         "engine": "vcheck",
         "level_claimed": {"category": "exploration", "text": text, "design_ref": ref},
         "level_note": note,
-        "technique": technique,
+        "technique": technique + ("" if i == "C10" else "; the thorough tier adds a coverage-guided libFuzzer stage whose input bytes are the random choices of the same proptest strategy (executor and oracle in-target)"),
     })
 na = [{"property_id": i, "reason": "check not built yet in this session (work in progress; see DESIGN.md section 8)"} for i in ids if i not in CLAIMED]
 m = {
@@ -41,7 +41,8 @@ m = {
     },
     "engines": [
         {"name": "vcheck", "path": "harness", "serves_properties": sorted(CLAIMED), "kind_free_text": "Rust binary: seeded parallel proptest driver (manual shrinking, replay files, known-finding handling, evidence) over native soroban-sdk test-host worlds, with independent oracles (own Keccak-256, XDR writer, ABI codec, reference models)"},
-        {"name": "fuzz-abi", "path": "fuzz", "serves_properties": ["C10"] if "C10" in CLAIMED else [], "kind_free_text": "cargo-fuzz/libFuzzer target (stable toolchain, --sanitizer none) with the C10 differential oracle in-target"},
+        {"name": "fuzz-abi", "path": "fuzz", "serves_properties": ["C10"] if "C10" in CLAIMED else [], "kind_free_text": "cargo-fuzz/libFuzzer target abi_decode (stable toolchain, --sanitizer none) with the C10 differential oracle in-target"},
+        {"name": "fuzz-prop", "path": "fuzz", "serves_properties": sorted(x for x in CLAIMED if x != "C10"), "kind_free_text": "cargo-fuzz/libFuzzer target prop (stable toolchain, --sanitizer none): generic coverage-guided stage of the thorough tier; the fuzzer's bytes drive the property's own proptest strategy through a pass-through RNG (harness union OneOf avoids RNG forks), the generated case runs through the same executor and oracle; failing cases are handed to vcheck, which re-runs, shrinks and reports them"},
     ],
     "checks": checks,
     "not_applicable": na,
